@@ -247,7 +247,7 @@ func (_this *Context) ValidateIdentifier(data []uint8) {
 	if len(data) == 0 {
 		panic(fmt.Errorf("identifier cannot be empty"))
 	}
-	if len(data) > int(_this.config.Rules.MaxIdentifierLength) {
+	if uint64(len(data)) > _this.config.Rules.MaxIdentifierLength {
 		panic(fmt.Errorf("identifier is too long (%v bytes)", len(data)))
 	}
 	if !chars.IsIdentifierSafe(data) {
